@@ -363,6 +363,8 @@ static struct rnode *rnode_grp(char **pat)
 	return rnode_make(RN_GRP, rnode, NULL);
 }
 
+static int rnode_bad;	/* set when a part of the pattern was rejected */
+
 static struct rnode *rnode_atom(char **pat)
 {
 	struct rnode *rnode;
@@ -413,6 +415,7 @@ static struct rnode *rnode_atom(char **pat)
 		if (rnode->mincnt > NREPS || rnode->maxcnt > NREPS ||
 				(rnode->maxcnt >= 0 && rnode->maxcnt < rnode->mincnt)) {
 			rnode_free(rnode);
+			rnode_bad = 1;		/* the whole pattern is rejected */
 			return NULL;
 		}
 	}
@@ -556,10 +559,14 @@ static void rnode_emit(struct rnode *n, struct regex *p)
 
 int regcomp(regex_t *preg, char *pat, int flg)
 {
-	struct rnode *rnode = rnode_parse(&pat);
+	struct rnode *rnode = (rnode_bad = 0, rnode_parse(&pat));
 	struct regex *re;
 	int n = rnode_count(rnode) + 3;
 	int mark;
+	if (rnode && rnode_bad) {
+		rnode_free(rnode);
+		return 1;
+	}
 	if (!rnode)
 		return 1;
 	rnode_grpnum(rnode, 1);
